@@ -15,8 +15,9 @@
    summation give the step.  No case analysis on vanishing denominators is needed.  The result is transferred to
    N / dN on the half-open span with Nk_eq_N / dN_eq_dNk.
 
-   Also: support of dN and the telescoping sum  sum_{i=s-p..s} dN k p i u = 0  for k >= 1 (rows of derivatives of
-   the non-vanishing basis functions sum to zero). *)
+   Also: support of dN / dNk and the telescoping sums  sum_{i=s-p..s} dN k p i u = 0  (u in the span) and
+   sum_{i=s-p..s} dNk k p i x = 0  (every x)  for k >= 1 (rows of derivatives of the non-vanishing basis functions
+   sum to zero). *)
 From Coq Require Import Reals Lra Lia Arith Bool.
 From NV Require Import Proofs.Boehm Proofs.DerivAnalytic.
 Open Scope R_scope.
